@@ -455,10 +455,17 @@ def case_union(ctx, rng):
         cands.append(("argv", lookalike(rng, members[0])))
     cands.append(("argv", hostile_string(rng)[0]))
     cands.append(("object", rng.choice([1, 1.5, True, None, "abc", [1], {"a": 1}, "null", "1"])))
+    if any(m.kind in ("int", "float", "rnum") for m in members):
+        cands.append(("object", rng.choice([10**400, -(10**400)])))  # an int no float can hold: a member may fail in its own way
     for channel, v in cands:
         f = accept_obj if channel == "object" else accept_argv
         outs = [f(u, v) for u in unions]
         if any(not (o.accepted or o.rejected) for o in outs):
+            if any(o.accepted for o in outs):
+                # accepted in one order, an escaping exception in another: acceptance depends on the order
+                esc = next(o for o in outs if not (o.accepted or o.rejected))
+                i_acc, i_esc = [o.accepted for o in outs].index(True), outs.index(esc)
+                ctx.violation("union", f"d/order-dependent/{channel}/{value_class(v, channel)}/escape-{esc.exc_type}-in-one-order", dict(members=[m.skel for m in members], value=short(v, 60), accepting=unions[i_acc].skel, escaping=unions[i_esc].skel, error=esc.brief()))
             continue
         single = [f(m, v) for m in members]
         if any(not (o.accepted or o.rejected) for o in single):
